@@ -23,14 +23,27 @@ import (
 	"strings"
 )
 
+// The tree under test and the verification sources; the defaults are what every registered command uses. The environment
+// variables exist for tools/pc_eval.sh only, which evaluates a changed scratch copy of the repository without touching /repo.
+var (
+	repoRoot = envOr("VERIF_REPO", "/repo")
+	repoPkg  = repoRoot + "/uu"
+	overlayV = envOr("VERIF_SRC", "/verif") + "/overlay"
+)
+
+func envOr(k, d string) string {
+	if v := os.Getenv(k); v != "" {
+		return v
+	}
+	return d
+}
+
 const (
-	repoPkg  = "/repo/uu"
 	shimSync = "go.lstv.dev/util/verifsync"
 	shimAtom = "go.lstv.dev/util/verifsync/atomic"
 	shimRand = "go.lstv.dev/util/verifsync/rand"
 	shimRnd2 = "go.lstv.dev/util/verifsync/rand2"
 	shimCrnd = "go.lstv.dev/util/verifsync/crand"
-	overlayV = "/verif/overlay"
 )
 
 func die(format string, a ...any) {
@@ -143,12 +156,12 @@ func main() {
 		die("%v", err)
 	}
 	replace[repoPkg+"/verif_hooks.go"] = hp
-	replace["/repo/verifsync/sched.go"] = overlayV + "/verifsync/sched.go"
-	replace["/repo/verifsync/extra.go"] = overlayV + "/verifsync/extra.go"
-	replace["/repo/verifsync/atomic/atomic.go"] = overlayV + "/verifsync/atomic/atomic.go"
-	replace["/repo/verifsync/rand/rand.go"] = overlayV + "/verifsync/rand/rand.go"
-	replace["/repo/verifsync/rand2/rand.go"] = overlayV + "/verifsync/rand2/rand.go"
-	replace["/repo/verifsync/crand/rand.go"] = overlayV + "/verifsync/crand/rand.go"
+	replace[repoRoot+"/verifsync/sched.go"] = overlayV + "/verifsync/sched.go"
+	replace[repoRoot+"/verifsync/extra.go"] = overlayV + "/verifsync/extra.go"
+	replace[repoRoot+"/verifsync/atomic/atomic.go"] = overlayV + "/verifsync/atomic/atomic.go"
+	replace[repoRoot+"/verifsync/rand/rand.go"] = overlayV + "/verifsync/rand/rand.go"
+	replace[repoRoot+"/verifsync/rand2/rand.go"] = overlayV + "/verifsync/rand2/rand.go"
+	replace[repoRoot+"/verifsync/crand/rand.go"] = overlayV + "/verifsync/crand/rand.go"
 	b, _ := json.MarshalIndent(map[string]any{"Replace": replace}, "", " ")
 	if err := os.WriteFile(out, b, 0o644); err != nil {
 		die("%v", err)
